@@ -18,7 +18,7 @@ from .fingerprint import fp_exception, fp_value, mask, order_free
 from .kernel import HarnessError, Streams, Trace, canon, h64
 
 PROP = 'C10'
-RUN_CLASSES = ('norecycle', 'recycle', 'lru', 'threads')
+RUN_CLASSES = ('norecycle', 'recycle', 'lru', 'threads', 'long', 'threads_wide')
 SHRINK_BUDGET = 700
 
 C10_KINDS = ['tvar', 'tagged', 'list', 'set', 'vtuple', 'tuple', 'dict', 'tlist', 'tset', 'tseq', 'tvtuple', 'ttuple', 'tdict', 'tmap',
@@ -270,11 +270,13 @@ def _inject_refs(rng, ast, roots, depth=0):
 
 
 def gen_plan(seed: int, cls: str) -> dict:
-    if cls == 'threads':
-        return gen_plan_threads(seed)
+    if cls in ('threads', 'threads_wide'):
+        return gen_plan_threads(seed, wide=(cls == 'threads_wide'))
     st = Streams(seed)
     rk, ro = st.rng('knobs'), st.rng('ops')
-    knobs = gen_knobs(rk, cls)
+    knobs = gen_knobs(rk, 'recycle' if cls == 'long' else cls)
+    if cls == 'long':
+        knobs['lru'] = rk.choice([None, None, 2, 4, 16])
     kinds = rk.sample(C10_KINDS, knobs['n_kinds'])
     tg._p()
     sym = tg.World()            # symbolic world: specs only
@@ -282,7 +284,7 @@ def gen_plan(seed: int, cls: str) -> dict:
     insts = {}                  # name -> root name
     ops = []
     nroot = ninst = ncls = 0
-    nops = ro.choice([4, 8, 12, 16, 24, 32, 40])
+    nops = ro.choice([4, 8, 12, 16, 24, 32, 40]) if cls != 'long' else ro.choice([60, 80, 120, 160])
     weights = MIXES[knobs['mix']] + EXTRA_WEIGHTS[knobs['mix']]
     opnames = OPNAMES + EXTRA_OPS
     hdicts = {}
@@ -311,7 +313,7 @@ def gen_plan(seed: int, cls: str) -> dict:
     while len(ops) < nops:
         name = prologue.pop(0) if prologue else ro.choices(opnames, weights)[0]
         if name in ('defclass', 'defenum'):
-            if ncls >= 5:
+            if ncls >= (5 if cls != 'long' else 9):
                 continue
             if name == 'defenum' or (ro.random() < 0.25 and not knobs.get('hpair')):
                 spec = tg.gen_enum_spec(ro, f'E{ncls}')
@@ -1318,7 +1320,7 @@ def tg_flat(p):
 
 
 def execute(plan, want_trace=False) -> dict:
-    if plan['cls'] == 'threads':
+    if plan['cls'] in ('threads', 'threads_wide'):
         return execute_threads(plan, want_trace)
     from .kernel import PristineServer
     srv = PristineServer(pristine_eval)
@@ -1461,13 +1463,13 @@ TRACED = ('pane/util.py', 'pane/convert.py')
 TRACED_ALL = TRACED + ('pane/classes.py', 'pane/converters.py', 'pane/annotations.py', 'pane/types.py', 'pane/field.py', 'pane/errors.py')
 
 
-def gen_plan_threads(seed: int) -> dict:
+def gen_plan_threads(seed: int, wide=False) -> dict:
     st = Streams(seed)
     rk, ro = st.rng('knobs'), st.rng('ops')
     target = rk.choice(['keycache', 'keycache', 'memo', 'memo', 'memo'])
     knobs = {
         'target': target,
-        'nthreads': rk.choice([2, 2, 3, 4]),
+        'nthreads': rk.choice([2, 2, 3, 4]) if not wide else rk.choice([4, 5, 6, 8]),
         'maxsize': rk.choice([1, 1, 2, 2, 3, 4]) if target == 'keycache' else rk.choice([None, 1, 2, 3, 4, 8]),
         'switch_p': rk.choice([0.05, 0.15, 0.3, 0.5, 0.8]),
         'p_recycle': rk.choice([0.0, 1.0]),
@@ -1475,7 +1477,7 @@ def gen_plan_threads(seed: int) -> dict:
         'valid_p': 0.85,
         'trace_scope': rk.choice(['memo', 'memo', 'all']),
     }
-    plan = {'prop': PROP, 'seed': seed, 'cls': 'threads', 'knobs': knobs, 'setup': [], 'threads': [], 'ops': []}
+    plan = {'prop': PROP, 'seed': seed, 'cls': 'threads_wide' if wide else 'threads', 'knobs': knobs, 'setup': [], 'threads': [], 'ops': []}
     if target == 'keycache':
         for _ in range(knobs['nthreads']):
             plan['threads'].append([ro.randrange(knobs['keyspace']) for _ in range(ro.choice([2, 3, 4, 6, 8]))])
@@ -1862,7 +1864,7 @@ def shrink_candidates_threads(plan, res):
 
 def shrink_candidates(plan, res):
     from .shrink import chunks_to_drop, clone, without
-    if plan['cls'] == 'threads':
+    if plan['cls'] in ('threads', 'threads_wide'):
         yield from shrink_candidates_threads(plan, res)
         return
     v = res.get('violation')
@@ -1965,7 +1967,8 @@ def tier_config(tier):
     if tier == 'quick':
         return {'classes': [('norecycle', 1500), ('recycle', 2500), ('lru', 1000), ('threads', 2500)], 'chunk': 25, 'selftest_n': 200,
                 'sample': 1, 'hang_s': 240}
-    return {'classes': [('norecycle', 3000), ('recycle', 5000), ('lru', 2000), ('threads', 6000)], 'chunk': 25, 'selftest_n': 600,
+    return {'classes': [('norecycle', 3000), ('recycle', 5000), ('lru', 2000), ('threads', 6000), ('long', 600), ('threads_wide', 1200)],
+            'chunk': 25, 'selftest_n': 600,
             'sample': 1, 'hang_s': 900, 'repeat': True, 'budget_s': 900}
 
 
